@@ -113,6 +113,7 @@ type Scenario struct {
 	RunForMs    int              `json:"run_for_ms"`   // main waits this long for Run() to return by itself
 	EndShutdown bool             `json:"end_shutdown"` // then requests a shutdown and waits BoundMs for Run()
 	BoundMs     int              `json:"bound_ms"`
+	QuietMs     int              `json:"quiet_ms,omitempty"` // quiet period before the final observations
 	Strategy    simsync.Strategy `json:"strategy"`
 	IterMode    int              `json:"iter_mode,omitempty"`
 	IterRot     int              `json:"iter_rot,omitempty"`
